@@ -101,6 +101,52 @@ BENIGN_FFCACHE_NAMES_MIXED_UP = ("ffcache_names_mixed_up", S + "forcefield_helpe
 
 BENIGN_FF_LONGEST_RULE_PREF_DROPPED = ("ff_longest_rule_pref_dropped", S + "forcefield_helper.py", "                if len(match_rule) > len(final_match):", "                if False:", ["C20"])
 
+BENIGN = [
+    BENIGN_ATTACH_DEEPCOPY_DROPPED, BENIGN_MIRROR_SHALLOW, BENIGN_FFCACHE_NAMES_MIXED_UP, BENIGN_FF_LONGEST_RULE_PREF_DROPPED,
+    ("extra_discarded_finalisation", S + "stochastic.py",
+     "                finalized_my_mol = finalize_mol(copy.deepcopy(my_mol))\n",
+     "                finalize_mol(copy.deepcopy(my_mol))\n                finalized_my_mol = finalize_mol(copy.deepcopy(my_mol))\n", []),
+    ("finalise_only_when_stopping", S + "stochastic.py",
+     "                finalized_my_mol = finalize_mol(copy.deepcopy(my_mol))\n                if (\n                    rdDescriptors.HeavyAtomMolWt(my_mol.mol) - starting_mol_weight\n                    > target_mol_weight\n                ):\n                    break\n",
+     "                if (\n                    rdDescriptors.HeavyAtomMolWt(my_mol.mol) - starting_mol_weight\n                    > target_mol_weight\n                ):\n                    finalized_my_mol = finalize_mol(copy.deepcopy(my_mol))\n                    break\n", []),
+    ("del_replaced_by_slicing", S + "mol_gen.py", "        del self.bond_descriptors[self_bond_idx]\n",
+     "        self.bond_descriptors = self.bond_descriptors[:self_bond_idx] + self.bond_descriptors[self_bond_idx + 1 :]\n", []),
+    ("choice_skipped_for_single_option", S + "core.py", "    try:\n        idx = rng.choice(compatible_idx, p=weights)\n",
+     "    if len(compatible_idx) == 1:\n        return compatible_idx[0]\n    try:\n        idx = rng.choice(compatible_idx, p=weights)\n", []),
+    ("draw_after_start_mass", S + "stochastic.py",
+     "            starting_mol_weight = rdDescriptors.HeavyAtomMolWt(my_mol.mol)\n            target_mol_weight = self.distribution.draw_mw(rng)\n",
+     "            target_mol_weight = self.distribution.draw_mw(rng)\n            starting_mol_weight = rdDescriptors.HeavyAtomMolWt(my_mol.mol)\n", []),
+    ("renamed_local_and_comment", S + "system.py", "            mol_gen = mol.generate(rng=rng)\n            generated_total_mass += mol_gen.weight\n            if not mol_gen.fully_generated:\n                raise RuntimeError(\"We expect a fully generated molecule here.\")\n            yield mol_gen",
+     "            member = mol.generate(rng=rng)\n            if not member.fully_generated:\n                raise RuntimeError(\"We expect a fully generated molecule here.\")\n            generated_total_mass += member.weight\n            yield member", []),
+]
+ALL_PROPS = ["C04", "C05", "C06", "C07", "C08", "C09", "C10", "C11", "C13", "C14", "C16", "C18", "C19", "C20"]
+
+
+def run_soundness(names, runs, out=sys.stdout):
+    """every check must stay quiet (exit 0) on behaviour-preserving edits"""
+    ok = True
+    for e in BENIGN:
+        if names and e[0] not in names:
+            continue
+        tmp = tempfile.mkdtemp(prefix="gbsim-ben-")
+        try:
+            shutil.copytree(os.path.join("/repo", "src"), os.path.join(tmp, "src"), ignore=shutil.ignore_patterns("__pycache__", "*.egg-info"))
+            apply(e, tmp)
+            bad = []
+            for pid in ALL_PROPS:
+                env = dict(os.environ)
+                env.update({"GBSIM_REPO": tmp, "GBSIM_RUNS": str(runs), "PYTHONHASHSEED": "0", "GBSIM_EVIDENCE_DIR": os.path.join(tmp, "ev"),
+                            "GBSIM_REPLAY_DIR": os.path.join(tmp, "rp")})
+                p = subprocess.run([sys.executable, runner.MAIN, pid, "quick"], capture_output=True, text=True, env=env, timeout=3000)
+                if p.returncode != 0:
+                    viol = [l.strip()[:200] for l in p.stdout.splitlines() if l.startswith("  invariant=") or l.startswith("HARNESS")]
+                    bad.append((pid, p.returncode, viol[:2]))
+            print(f"[benign] {e[0]:36s} {'QUIET' if not bad else 'ALARM ' + str(bad)}", file=out, flush=True)
+            ok = ok and not bad
+        finally:
+            shutil.rmtree(tmp, ignore_errors=True)
+    return 0 if ok else 1
+
 
 def apply(entry, dst):
     name, rel, old, new, props = entry
@@ -158,6 +204,8 @@ def main(args):
         else:
             names.append(args[i])
         i += 1
+    if names and names[0] == "--soundness":
+        return run_soundness(names[1:], runs)
     entries = [e for e in CATALOGUE if not names or e[0] in names]
     ok = True
     for e in entries:
